@@ -322,10 +322,15 @@ pub fn run(ctx: &mut Ctx) {
     let nsweep = ctx.tier.pick(2usize, cfgs.len());
     const NAMES: [&str; 6] = ["all_windows_cfg0", "all_windows_cfg1", "all_windows_cfg2", "all_windows_cfg3", "all_windows_cfg4", "all_windows_cfg5"];
     for (k, cfg) in cfgs.iter().take(nsweep).enumerate() {
-        let full = match FullRun::new(cfg) {
-            Ok(f) => Arc::new(f),
-            Err(f) => {
-                ctx.report_violation(NAMES[k], &serde_json::to_value(cfg).unwrap(), &f);
+        let full = match catch(|| FullRun::new(cfg)) {
+            Ok(Ok(f)) => Arc::new(f),
+            Ok(Err(f)) => {
+                ctx.report_violation(NAMES[k], &serde_json::to_value(Case { cfg: cfg.clone(), scopes: vec![], extra_next: 0 }).unwrap(), &f);
+                continue;
+            }
+            Err(p) => {
+                let f = Fail::new(format!("panic@{}", p.rsplit(" at ").next().unwrap_or("?")), format!("the unscoped run of sweep configuration {} panicked: {}", k, p));
+                ctx.report_violation(NAMES[k], &serde_json::to_value(Case { cfg: cfg.clone(), scopes: vec![], extra_next: 0 }).unwrap(), &f);
                 continue;
             }
         };
